@@ -883,10 +883,18 @@ class C18(Prop):
                     if ex.errno != errno.ENXIO:
                         raise
 
+        count_mode = bool(inv["flags"]["c"])
+
         def has_marker(pth):
+            """the *last* line the worker writes for this file has appeared: the count line, or the line of
+            the last rule event (zz_always / zz_never are declared last; with -n only zz_never is reported)"""
             pb = pth.encode()
+            last_rule = b"zz_never" if inv["flags"]["n"] else b"zz_always"
             for ln in bufs["o"].split(b"\n")[:-1]:
-                if ln.startswith(pb + b": ") or ln.endswith(b" " + pb):
+                if count_mode:
+                    if ln.startswith(pb + b": "):
+                        return True
+                elif ln.endswith(b" " + pb) and ln.split(b" ")[0].split(b":")[-1] == last_rule:
                     return True
             return False
 
